@@ -5,6 +5,7 @@ import (
 	"errors"
 	"fmt"
 	"strings"
+	"unicode/utf8"
 
 	"github.com/wollac/iota-crypto-demo/pkg/bech32/internal/base32"
 )
@@ -80,6 +81,12 @@ func Decode(s string) (string, []byte, error) {
 	for i, c := range s[:hrpLen] {
 		if !isValidHRPChar(c) {
 			return "", nil, &SyntaxError{fmt.Errorf("%w: not US-ASCII character in human-readable part", ErrInvalidCharacter), i}
+		}
+	}
+	// the data part must be US-ASCII; Unicode case mapping would otherwise alias other runes to charset characters
+	for i := hrpLen + 1; i < len(s); i++ {
+		if s[i] >= utf8.RuneSelf {
+			return "", nil, &SyntaxError{fmt.Errorf("%w: non-charset character in data part", ErrInvalidCharacter), i}
 		}
 	}
 	// validate that the case of the entire string is consistent
